@@ -13,6 +13,7 @@ import (
 	"io"
 	"math"
 	"strconv"
+	"sync/atomic"
 	"time"
 
 	"github.com/tsuna/gohbase/hrpc"
@@ -347,8 +348,12 @@ func (c *client) SendBatch(ctx context.Context, batch []hrpc.Call) (
 		if needBackoff {
 			sp.AddEvent("retrySleep")
 			var err error
-			backoff, err = sleepAndIncreaseBackoff(ctx, backoff)
+			sctx, stop := contextOfCalls(ctx, retries)
+			backoff, err = sleepAndIncreaseBackoff(sctx, backoff)
+			stop()
 			if err != nil {
+				// the batch context is done, or nobody is waiting
+				// for the calls to be retried anymore
 				break
 			}
 		} else {
@@ -361,6 +366,34 @@ func (c *client) SendBatch(ctx context.Context, batch []hrpc.Call) (
 	}
 
 	return res, allOK
+}
+
+// contextOfCalls returns a context that is done when ctx is done or when
+// the own context of every one of the rpcs is done, and a function that
+// releases it.
+func contextOfCalls(ctx context.Context, rpcs []hrpc.Call) (context.Context, func()) {
+	for _, rpc := range rpcs {
+		if rpc.Context() == ctx || rpc.Context().Done() == nil {
+			// this call lives as long as the batch does
+			return ctx, func() {}
+		}
+	}
+	cctx, cancel := context.WithCancel(ctx)
+	left := int32(len(rpcs))
+	stops := make([]func() bool, len(rpcs))
+	for i, rpc := range rpcs {
+		stops[i] = context.AfterFunc(rpc.Context(), func() {
+			if atomic.AddInt32(&left, -1) == 0 {
+				cancel()
+			}
+		})
+	}
+	return cctx, func() {
+		for _, stop := range stops {
+			stop()
+		}
+		cancel()
+	}
 }
 
 // findClients takes a batch of rpcs and discovers the region and
